@@ -92,6 +92,7 @@ type Engine struct {
 	havocked    map[string]bool
 	recDefs     map[string]bool
 	symUsed     map[string]int // names already given to symbolic structs/pointers (identity is the name)
+	hist        histHome
 	inLoop      int
 	boxed       map[string]Val
 	notes       []string
@@ -290,7 +291,11 @@ func (e *Engine) oblige(kind, label, reach, goal string, pos token.Pos) *Oblig {
 		name += fmt.Sprintf("#%d", n)
 	}
 	e.obls = append(e.obls, Oblig{Name: name, Kind: kind, Label: label, Reach: reach, Goal: goal, NFacts: len(e.facts), Pos: e.fset.Position(pos)})
-	e.fact(imp(reach, goal)) // once asserted, may be assumed downstream
+	if kind != "ensures" && kind != "effect" && kind != "frame" {
+		// once asserted, may be assumed downstream; the clauses of a postcondition are judged independently of each
+		// other, so that each broken clause is reported (and replayed) on its own
+		e.fact(imp(reach, goal))
+	}
 	return &e.obls[len(e.obls)-1]
 }
 
@@ -1532,6 +1537,10 @@ func (e *Engine) enterLoop(f *frame, st *State, li *loopInfo, reach string, top 
 			var ia []Val
 			for _, p := range inv.Params {
 				name := strings.TrimPrefix(p.Name(), "gocvcount_")
+				if name == "range__" {
+					ia = append(ia, e.rangedSlice(f, s, li))
+					continue
+				}
 				c, ok := f.named[name]
 				if p.Name() != name { // range variable: completed iterations
 					ri := e.rangeIndexCell(f, li)
@@ -1636,6 +1645,20 @@ func (e *Engine) rangeIndexCell(f *frame, li *loopInfo) *Cell {
 		}
 	}
 	return nil
+}
+
+// rangedSlice is the slice a range loop iterates over: the operand of the len() the hidden index is compared with.
+func (e *Engine) rangedSlice(f *frame, st *State, li *loopInfo) Val {
+	for _, ins := range li.head.Instrs {
+		if b, ok := ins.(*ssa.BinOp); ok && b.Op == token.LSS {
+			if call, ok := b.Y.(*ssa.Call); ok {
+				if bi, ok := call.Call.Value.(*ssa.Builtin); ok && bi.Name() == "len" && len(call.Call.Args) == 1 {
+					return e.get(f, st, call.Call.Args[0])
+				}
+			}
+		}
+	}
+	panic(unsupported{"range__ used in the invariant of a loop that does not range over a slice"})
 }
 
 // havocRoot forgets the memory an address expression (evaluated at the loop head) may point into.
